@@ -13,7 +13,10 @@ COQ_ROOTS = ['Props/C01.v', 'GenProps/Framing_consts.v', 'GenProps/Writer_consts
 RULE = ('Parser level: (message list, chunking (1.1), segmentation) triples, both framing versions. Messages: XML-ish ASCII, '
         '2/3/4-byte characters inside and at both ends (incl. U+00A0/U+3000/U+2028), blank-after-strip, multi-read (5-12 kB), '
         'ending in a proper prefix of the 1.0 delimiter, lone ]]> (1.0) / the full ]]>]]> (1.1) inside, chunk-header and '
-        'end-of-chunks look-alikes as payload (1.1). Chunkings: single, all size-1, uniform k, random, adversarial (a boundary '
+        'end-of-chunks look-alikes as payload (1.1), a special FIRST character (kind first: U+FEFF byte order mark with / without an XML '
+        'declaration after it, doubled, alone; zero-width / format characters, non-characters, U+FFFD, line feeds) - the first-character '
+        'lists are sent under BOTH framings (1.1 chunk boundaries at every offset inside the first character) and the two deliveries '
+        'compared with the octets sent and with each other (1.0 = str.strip of 1.1). Chunkings: single, all size-1, uniform k, random, adversarial (a boundary '
         'inside every multi-byte character and every delimiter look-alike). Segmentations: whole, all size-1, fixed 4096, '
         'random cut sets, adversarial (every offset within 7 octets of each delimiter/header and inside every multi-byte '
         'character; all at once and random subsets), ALL single cuts and ALL double cuts of short streams. Each case is run '
@@ -187,6 +190,25 @@ def micro(ctx):
         bad = (not isinstance(mo, list)) or mo[0] != py[0] or (py[0] == 1 and mo[1] != py[1])
         if bad:
             ctx.disagree(case, mo, py, 'model utf8_valid/strip differs from CPython decode("utf-8")/str.strip', theorem='Utf8 (valid, strip)')
+    # the decoder _parse11 uses for a complete message (parser.textify, when the module has it) against Utf8.decode_strict:
+    # the text has exactly the octets decoded (C01_decode_keeps_bom: nothing is dropped in front), invalid octets raise
+    from ncclient.transport import parser as P
+    tx = getattr(P, 'textify', None)
+    if callable(tx):
+        firsts = [c.encode('utf-8') for c in F().FIRSTS_ZW + F().FIRSTS_LF]
+        more = [a + b for a in firsts for b in (b'', b'<a/>', b'\xef\xbb\xbf', b'<?xml version="1.0"?><a/>')]
+        for b, mo in list(zip(blobs, outs)) + [(b, [1, None]) for b in more]:
+            try:
+                t = tx(b); got = [1, t.encode('utf-8', 'surrogatepass') if isinstance(t, str) else bytes(t)]
+            except UnicodeDecodeError:
+                got = [0, None]
+            want = [1, b] if isinstance(mo, list) and mo[0] == 1 else [0, None]
+            case = {'micro_decode': b.hex()}
+            ctx.count(case, nontrivial=len(b) > 0)
+            ctx.hist('level', 'micro_decode')
+            if got != want:
+                ctx.disagree(case, want, got, 'parser.textify differs from Utf8.decode_strict (the decoded text has exactly the octets decoded)',
+                             theorem='C01_decode_keeps_bom')
 
 
 # ---------------------------------------------------------------- 3. parser level
@@ -285,6 +307,60 @@ def short_stream_job(rng, base, maxlen, minlen=12):
             return msgs, kinds, chunked, stream
 
 
+def first_chars(ctx, J):
+    """Messages whose FIRST character is one a decoder or a reader might treat specially - U+FEFF (byte order mark) alone, in
+    front of a document, in front of an XML declaration, doubled; zero-width / format characters; non-characters; line feeds -
+    under BOTH framings: the same message list is sent as a 1.0 stream and as a 1.1 stream (chunk boundaries at every offset
+    of the first character's octets, inside and just after them), every single cut, all size-1 reads and (short streams) every
+    double cut; the property oracle and the model judge each run as usual, and the two deliveries of the same message are
+    compared with each other and with the octets sent: 1.0 delivery == str.strip of the 1.1 delivery, 1.1 delivery == sent."""
+    f, rng, quick = F(), ctx.rng, ctx.tier == 'quick'
+    e = '\u00e9'
+    fixed = [f.BOM + '<a/>', f.BOM + '<?xml version="1.0"?><a>%s</a>' % e, f.BOM, f.BOM + f.BOM + '<a/>', '\n<a/>', '\u200b<a/>',
+             '\uffff<a/>', '\n' + f.BOM + '<a/>', f.BOM + '\n<a/>\n']
+    pool = [c + '<a/>' for c in f.FIRSTS_ZW + f.FIRSTS_LF] + f.TINY_FIRST
+    extra = rng.sample(pool, 6 if quick else len(pool)) + [f.gen_message(rng, 11, 'first', 1) for _ in range(4 if quick else 60)]
+    n = 0
+    for j, m in enumerate(fixed + extra):
+        if f.DELIM10.decode() in m: continue
+        for msgs in ([m], ['<z/>', m, m]):
+            if msgs[0] != m and j % 3: continue
+            mb = [x.encode('utf-8') for x in msgs]
+            k = len(m[0].encode('utf-8'))                    # octets of the first character
+            chunkings = [[[b] for b in mb]]
+            for c in range(1, min(k + 2, len(mb[-1]))):      # a chunk boundary inside / right after the first character
+                chunkings.append([[b] for b in mb[:-1]] + [[mb[-1][:c], mb[-1][c:]]])
+            if k >= 3 and len(mb[-1]) > 3:
+                chunkings.append([[b] for b in mb[:-1]] + [[mb[-1][:1], mb[-1][1:2], mb[-1][2:3], mb[-1][3:]]])
+            streams = [(10, None, f.encode10(mb))] + [(11, ch, f.encode11(ch)) for ch in chunkings]
+            delivered = {}
+            for base, ch, stream in streams:
+                cs = [('whole', []), ('size1', list(range(1, len(stream))))]
+                if j < len(fixed) or not quick: cs += [('single_all', c) for c in f.all_single_cuts(len(stream))]
+                else: cs += [('adversarial_all', f.gen_cuts(rng, base, stream, 'adversarial_all'))]
+                if len(stream) <= (24 if quick else 40) and ch in (None, chunkings[-1]):
+                    cs += [('double_all', c) for c in f.all_double_cuts(len(stream))]
+                J.add(base, cs, msgs=msgs, kinds=['first'] * len(msgs), chunked=ch, chunk_kind='first_char' if ch else '-')
+                # the deliveries of the two framings against each other (whole stream and a cut inside the first character)
+                for cuts in ([], [stream.find(mb[-1][:k]) + 1] if k > 1 else []):
+                    recs = f.run_parser(base, f.segment(stream, cuts))
+                    delivered.setdefault(base, []).append([ev[1] for _, ev in f.flat_events(recs) if ev[0] == 0])
+            n += 1
+            case = {'level': 'both_framings', 'msgs': msgs}
+            ctx.count(case, nontrivial=True); ctx.hist('level', 'parser_both_framings'); ctx.hist('first_character', 'U+%04X' % ord(m[0]))
+            want11 = mb
+            want10 = [x.decode('utf-8').strip().encode('utf-8') for x in mb]
+            for base, want in ((10, want10), (11, want11)):
+                for got in delivered[base]:
+                    if got != want:
+                        ctx.fail(dict(case, base=base, segs=[(f.encode10(mb) if base == 10 else f.encode11(chunkings[0])).hex()]),
+                                 'base 1.%d delivers %r for the messages %r (octets sent %r); the same messages under base 1.%d are delivered as %r' % (
+                                     base - 10, got, msgs, mb, 21 - base - 10, delivered[21 - base][0]), sig=None,
+                                 expected=[[0, [0, w]] for w in want], actual=[[0, [0, g]] for g in got])
+                        break
+    ctx.extra['first_character_message_lists'] = n
+
+
 def parser_level(ctx):
     f, rng, quick = F(), ctx.rng, ctx.tier == 'quick'
     J = Jobs(ctx)
@@ -302,6 +378,7 @@ def parser_level(ctx):
     e = '\u00e9'
     J.add(10, [('single_all', c) for c in f.all_single_cuts(len(('<a>%s</a>' % e).encode()) + 6)], msgs=['<a>%s</a>' % e], kinds=['tiny'])
     J.add(11, [('whole', [])], msgs=['<a>%s</a>' % e], kinds=['tiny'], chunked=[[b'<a>\xc3', b'\xa9</a>']], chunk_kind='adversarial')
+    first_chars(ctx, J)
     # ALL single cuts of short streams; ALL double cuts of shorter ones
     n_single = 24 if quick else 100
     n_double = 3 if quick else 100
@@ -440,18 +517,19 @@ def dispatch_witnesses():
     """fixed cases run first: (a) back-to-back messages on a Junos use_filter session, the octets after a terminator are the
     beginning of the next message (two reads, every kind of cut is covered by the generated cases); (b) a reply whose root
     start tag ends beyond character 4096 (RFC 6241 4.2: the attributes of the <rpc> are echoed) between two small ones."""
-    d, out = D(), []
+    d, f, out = D(), F(), []
     import random
     rng = random.Random(20240501)
     for profile in d.PROFILES:
         for base in (10, 11):
-            a = d.make_doc(rng, base, 'note', 0, body_len=12)
-            b = d.make_doc(rng, base, 'reply', 0, prolog='decl+nl', start_end=4300, how='xmlns', epilog='\n')
+            a = d.make_doc(rng, base, 'note', 0, body_len=12, lead=f.BOM)           # (c) a byte order mark is the first character,
+            b = d.make_doc(rng, base, 'reply', 0, prolog='decl+nl', start_end=4300, how='xmlns', epilog='\n', lead=f.BOM)   # also before an XML declaration
             c = d.make_doc(rng, base, 'note', 2, prolog='comment', start_end=5000, how='prolog_comment')
             e = d.make_doc(rng, base, 'reply', 1, body_len=5)
             msgs, kinds = [a, b, c, e], ['note', 'reply', 'note', 'reply']
             stream, ends, expected, cks = d.encode(rng, base, msgs, 'uniform')
-            for sk, cuts in (('whole', []), ('uniform613', list(range(613, len(stream), 613))), ('after_term', [x + 9 for x in ends[:-1]])):
+            for sk, cuts in (('whole', []), ('uniform613', list(range(613, len(stream), 613))), ('after_term', [x + 9 for x in ends[:-1]]),
+                             ('in_first_char', [1, 2] if base == 10 else [stream.find(b'\xef\xbb\xbf') + 1, stream.find(b'\xef\xbb\xbf') + 2])):
                 out.append((profile, base, msgs, kinds, 2, stream, expected, [(sk, cuts)], dict(size='witness', start_end='witness')))
     return out
 
@@ -583,6 +661,13 @@ PEER_WITNESSES = [       # fixed cases run first on every transport: F24 (a piec
     dict(base=11, msgs=['<ok/>', '<rpc-reply message-id="2" %s><data><p005:v>ok-\u00e4</p005:v></data></rpc-reply>' % ' '.join(
              'xmlns:p%03d="urn:example:module:%03d" a%03d="\u00f6\u2603"' % (i, i, i) for i in range(110)), '<r>3</r>'],
          chunks=[None, None, None], cut='whole', actions='s'),
+    # the FIRST character of a message is U+FEFF (byte order mark; in front of an XML declaration, in front of the document element) or a
+    # line feed: text intact under both framings; 1.1: chunk boundaries inside the three octets EF BB BF
+    dict(base=11, msgs=['\ufeff<?xml version="1.0" encoding="UTF-8"?>\n<rpc-reply message-id="1"><data>\ufeff\u00e9</data></rpc-reply>', '\ufeff<ok/>', '\n<r>3</r>'],
+         chunks=[[b'\xef', b'\xbb', b'\xbf<?xml version="1.0" encoding="UTF-8"?>\n<rpc-reply message-id="1"><data>\xef\xbb', b'\xbf\xc3\xa9</data></rpc-reply>'],
+                 [b'\xef\xbb', b'\xbf<ok/>'], None], cut='holds', actions=None),
+    dict(base=10, msgs=['\ufeff<?xml version="1.0" encoding="UTF-8"?>\n<rpc-reply message-id="1"><data>\ufeff\u00e9</data></rpc-reply>', '\ufeff<ok/>', '\n<r>3</r>'],
+         chunks=None, cut='holds', actions=None),
 ]
 JUNOS_SAX = {'name': 'junos', 'use_filter': True}
 
